@@ -130,10 +130,11 @@ def main(ctx):
     sp = C04.shapes(ctx)
     tp = C04.tables(ctx)
     hp = C04.hetero(ctx)
+    fp = C04.floats(ctx)
     wb = ctx.build("writers")
     cases = os.path.join(ctx.scratch, "cases.ndjson")
     with open(cases, "wb") as f:
-        ctx.run([wb, "sengen", "-tier", ctx.tier, "-shapes", sp, "-pred", pp, "-tables", tp, "-hetero", hp], stdout=f)
+        ctx.run([wb, "sengen", "-tier", ctx.tier, "-shapes", sp, "-pred", pp, "-tables", tp, "-hetero", hp, "-floats", fp], stdout=f)
     # (c) run and judge
     recs = judge(ctx, cases)
     for rr in recs:
